@@ -1,6 +1,7 @@
 package core
 
 import (
+	"fmt"
 	"math"
 
 	"github.com/ipfs/go-cid"
@@ -85,6 +86,9 @@ func GenStrBytes(r *Rand, cfg GenCfg) []byte {
 	n := r.Intn(6)
 	if cfg.LongStr && r.Chance(1, 12) {
 		n = []int{22, 23, 24, 25, 255, 256, 257}[r.Intn(7)]
+		if r.Chance(1, 30) {
+			n = []int{65535, 65536, 65537}[r.Intn(3)] // the 2-byte / 4-byte length boundary
+		}
 	}
 	if r.Chance(1, 6) {
 		n = 0
@@ -172,6 +176,15 @@ func GenVal(r *Rand, cfg GenCfg, depth int) Val {
 		return Null()
 	case 8, 9:
 		n := r.Intn(cfg.MaxWidth + 1)
+		if cfg.LongStr && r.Chance(1, 60) {
+			// a wide list of scalars around the 23/24 and 255/256 length boundaries
+			n = []int{23, 24, 25, 255, 256, 257}[r.Intn(6)]
+			v := Val{K: '['}
+			for i := 0; i < n; i++ {
+				v.L = append(v.L, Int(int64(i%7)))
+			}
+			return v
+		}
 		v := Val{K: '['}
 		for i := 0; i < n; i++ {
 			v.L = append(v.L, GenVal(r, cfg, depth+1))
@@ -179,6 +192,27 @@ func GenVal(r *Rand, cfg GenCfg, depth int) Val {
 		return v
 	default:
 		n := r.Intn(cfg.MaxWidth + 1)
+		if cfg.LongStr && r.Chance(1, 60) {
+			// a wide map around the same boundaries (keys of two lengths, so the length-first order has work to do)
+			n = []int{23, 24, 25, 255, 256, 257}[r.Intn(6)]
+			v := Val{K: '{'}
+			for i := 0; i < n; i++ {
+				k := []byte(fmt.Sprintf("k%d", (i*7919)%1000))
+				if i >= 1000 {
+					break
+				}
+				dup := false
+				for _, e := range v.M {
+					if string(e.K) == string(k) {
+						dup = true
+					}
+				}
+				if !dup {
+					v.M = append(v.M, KV{k, Int(int64(i % 5))})
+				}
+			}
+			return v
+		}
 		v := Val{K: '{'}
 		seen := map[string]bool{}
 		for i := 0; i < n; i++ {
